@@ -819,6 +819,7 @@ func runC15(c *Ctx) {
 	runC15Renegotiation(c, pki)
 	runC15Dial(c, pki)
 	runC15ResumeUnoffered(c, pki)
+	runC15TLS12(c, pki)
 }
 
 func verClass(v int) string {
